@@ -590,12 +590,8 @@ def gen_population(rng, max_agents=7):
             desc["overlap0"] = [[e + shift, [x + shift for x in s_]] for e, s_ in desc["overlap0"]]
     encs = sorted({a["enc"] for a in desc["agents"]})
     gridw.maybe_late(rng, desc, 0.08)
-    if len(encs) > 1 and rng.random() < 0.15:
-        # a history: encodings re-assigned through the public setter after the components were built
-        enc0 = [a["enc"] for a in desc["agents"]]
-        rng.shuffle(enc0)
-        if enc0 != [a["enc"] for a in desc["agents"]]:
-            desc["enc0"] = enc0
+    # a history: encodings re-assigned through the public setter after the components were built
+    gridw.maybe_enc0(rng, desc, 0.15)
     amap = gen_amap(rng, n - int(desc.get("late") or 0))    # a mapping names agents that exist at construction
     emap = gen_emap(rng, encs)
     stale = False
